@@ -172,7 +172,9 @@ def run_case(case):
                 gc = g.copy()
                 try:
                     new = gc.constrain_choices([T.LINKED, T.PERMUTATION, T.UNORDERED, T.UNORDERED_NOREPL][r % 4], pick)
-                except (ValueError, RuntimeError):
+                except Exception as e:
+                    # a constraint that cannot be made (unequal option counts, an infeasible initial graph, ...) is no operation
+                    tags.append('constrain-raises:%s' % type(e).__name__)
                     continue
             elif kind == 'decode':
                 if proc[0] is None:
